@@ -156,12 +156,14 @@ class SinkDriver:
     """Consumer: ready follows the schedule, free to toggle at any time."""
     def __init__(self, ep, sched):
         self.ep, self.sched = ep, sched
+        self.hold = False                 # a harness controller may stall the consumer (ready = 0) for a while
 
     def signals(self):
         return []
 
     def step(self, v, c):
-        return {self.ep.ready: int(self.sched.next())}
+        r = int(self.sched.next())
+        return {self.ep.ready: 0 if self.hold else r}
 
 
 class EndpointMonitor:
